@@ -38,3 +38,8 @@ func patchedBlockIndex(index []tensor.Range, shape []int) (bidx []tensor.Range) 
 
 	return bidx
 }
+
+// gradient of a result that lost its operands' last dimension, aligned with the operands again
+func lastDimRestored(gy tensor.Tensor) (o tensor.Tensor, err error) {
+	return gy.UnSqueeze(len(gy.Shape()))
+}
